@@ -1,4 +1,10 @@
+mod artefacts;
+mod ast;
 mod css;
+mod exprs;
+mod gen;
+mod gen_tmpl;
+mod lit;
 mod path;
 mod probe;
 mod util;
@@ -14,6 +20,13 @@ fn main() {
     match cmd {
         "css" => css::run(tier, seed, &mut out),
         "cssone" => css::run_one(&mut out),
+        "cssnum" => css::run_num(tier, seed, &mut out),
+        "ident" => artefacts::ident(tier, seed, &mut out),
+        "artefacts" => artefacts::artefacts(tier, seed, &mut out),
+        "exprgen" => exprs::run_gen(tier, seed, &mut out),
+        "exprval" => exprs::run_val(tier, seed, &mut out),
+        "lit" => lit::run(tier, seed, &mut out),
+        "litctx" => lit::run_ctx(tier, seed, &mut out),
         "path" => path::run(tier, seed, &mut out),
         "probe" => probe::run(&args[2..]),
         _ => {
